@@ -652,9 +652,19 @@ class GenSource(object):
         return rng.choice(self.fidx[f])
 
     # ---- sequential engines
+    def _drain_task(self):
+        """Past the op budget, scripted steps already queued (repeat / life / edit ...) may still run, up to 12 more."""
+        if self.made >= self.cfg['nops'] + 12:
+            return None
+        busy = [t for t in sorted(self.queues) if self.queues[t]]
+        return busy[0] if busy else None
+
     def next_top(self, sim):
         if self.made >= self.cfg['nops']:
-            return None
+            task = self._drain_task()
+            if task is None:
+                return None
+            return self.make_op(sim, task, 0)
         task = self.rng.randrange(self.cfg['ntasks'])
         return self.make_op(sim, task, 0)
 
@@ -675,7 +685,9 @@ class GenSource(object):
 
     def t_op(self, sim, task):
         if self.made >= self.cfg['nops']:
-            return None
+            if self.made >= self.cfg['nops'] + 12 or not self.queues.get(task):
+                return None
+            return self.make_op(sim, task, 0)
         if self.rng.random() < self.cfg['p_same']:
             inflight = [c.op['name'] for j, c in enumerate(sim.tcur) if j != task and c is not None
                         and not c.op['name'].startswith('@')]
